@@ -1,7 +1,149 @@
-import VotelibModel.Convert
+/-
+  C13 — vote converters are per-ballot exact and additive: no vote lost or doubled.
+  Property theorems only (helper lemmas: VotelibProofs/Lemmas/ConvertSum.lean, ConvertImages.lean, …).
+
+  Reading.  A profile is a list of (ballot, weight); a Python dict is the merged normal form `mergeDict p`
+  (equal ballots summed).  A result dict `d` is read as the finitely supported function `toFun d`
+  (`d.get(k, 0)`, theorem `…_is_dict` says the keys are distinct so this is the stored value), because the
+  iteration order of the output is not part of the property.  `wsum p f = Σ_{(b,w) ∈ p} w · f b`.
+  For every converter `X` with per-ballot image `img`:
+    `X_sum`              X(p)(k) = Σ_{(b,w) ∈ p} w · img b k         (`SumOfImages`)
+    `X_additive`         X(p₁ ++ p₂) = X(p₁) + X(p₂)                   pointwise
+    `X_additive_merged`  X(mergeDict (p₁ ++ p₂)) = X(p₁) + X(p₂)       the dict `A + B`
+    `X_single…`          the image of a single ballot is the documented one
+    `X_weight_conserved` Σ values = Σ weights of the ballots that have an image   (one item per ballot)
+-/
+import VotelibProofs.Lemmas.ConvertImages
 namespace VL.C13
 open VL VL.Convert
 
-theorem stub : mergeDict ([] : Dict Cand) = [] := rfl
+/-! ## RankedToFirstPreference -/
+
+theorem firstPreference_eq_accum : rankedToFirstPreference = accumOne (fun b : Ballot => b.head?) := by
+  funext p
+  unfold rankedToFirstPreference accumOne
+  congr 1
+  funext acc bw
+  cases bw.1 <;> rfl
+
+/-- the first-preference count of `k` is the total weight of the ballots whose first place is `k` -/
+theorem firstPreference_sum :
+    SumOfImages rankedToFirstPreference (fun b k => if b.head? = some k then 1 else 0) := by
+  rw [firstPreference_eq_accum]; exact accumOne_sum _
+
+theorem firstPreference_additive (p₁ p₂ : RProfile) (k : RankItem) :
+    toFun (rankedToFirstPreference (p₁ ++ p₂)) k
+      = toFun (rankedToFirstPreference p₁) k + toFun (rankedToFirstPreference p₂) k :=
+  firstPreference_sum.additive p₁ p₂ k
+
+theorem firstPreference_additive_merged (p₁ p₂ : RProfile) (k : RankItem) :
+    toFun (rankedToFirstPreference (mergeDict (p₁ ++ p₂))) k
+      = toFun (rankedToFirstPreference p₁) k + toFun (rankedToFirstPreference p₂) k :=
+  firstPreference_sum.additive_merged p₁ p₂ k
+
+/-- a single ballot converts to exactly its first preference; the empty ballot to nothing -/
+theorem firstPreference_single (b : Ballot) (w : Rat) :
+    rankedToFirstPreference [(b, w)] = match b with
+      | [] => []
+      | it :: _ => [(it, w)] := by
+  rw [firstPreference_eq_accum, accumOne_single]
+  cases b <;> rfl
+
+/-- total weight is conserved: the first-preference counts sum to the weight of the non-empty ballots -/
+theorem firstPreference_weight_conserved (p : RProfile) :
+    total (rankedToFirstPreference p) = wsum p (fun b => if b = [] then 0 else 1) := by
+  rw [firstPreference_eq_accum, accumOne_total]
+  apply wsum_congr
+  intro bw _
+  cases bw.1 <;> simp
+
+theorem firstPreference_is_dict (p : RProfile) : (dkeys (rankedToFirstPreference p)).Nodup := by
+  rw [firstPreference_eq_accum]; exact accumOne_nodup _ p
+
+/-- no vote is lost: a key is listed iff some ballot has it as its first place -/
+theorem firstPreference_keys (p : RProfile) (k : RankItem) :
+    k ∈ dkeys (rankedToFirstPreference p) ↔ ∃ bw ∈ p, bw.1.head? = some k := by
+  rw [firstPreference_eq_accum]; exact mem_dkeys_accumOne _ p k
+
+/-! ## ApprovalToSimpleVotes (split and unsplit) -/
+
+/-- domain of the converter: with `split`, `Fraction(n, len(bulk))` needs a non-empty approval set -/
+def ApprovalOK (split : Bool) (p : AProfile) : Prop := split = true → ∀ bw ∈ p, bw.1 ≠ []
+
+instance (split : Bool) (p : AProfile) : Decidable (ApprovalOK split p) := by
+  unfold ApprovalOK; infer_instance
+
+/-- on its domain the converter returns the sum of the ballot images: every approved candidate gets the
+    ballot's weight (unsplit) or an equal share of it (split) -/
+theorem approvalToSimple_sum (split : Bool) (p : AProfile) (h : ApprovalOK split p) :
+    ∃ d, approvalToSimple split p = .ok d ∧ (dkeys d).Nodup ∧
+      ∀ k, toFun d k = wsum p (fun b => approvalImage split b k) := by
+  refine ⟨_, approvalToSimple_eq_ok split p h, ?_, ?_⟩
+  · apply nodup_foldl_step
+    · intro acc bw hacc; exact nodup_foldl_addTo_const _ _ hacc
+    · simp [dkeys]
+  · intro k
+    rw [toFun_foldl_step _ (approvalImage split) (toFun_approvalStep split)]; simp
+
+/-- outside the domain the converter raises (it never invents an image for an empty ballot) -/
+theorem approvalToSimple_rejects (p : AProfile) (h : ¬ ApprovalOK true p) :
+    approvalToSimple true p = .error (.other "ZeroDivisionError") := by
+  apply approvalToSimple_eq_error
+  unfold ApprovalOK at h
+  push Not at h
+  obtain ⟨_, bw, hbw, he⟩ := h
+  exact ⟨bw, hbw, he⟩
+
+theorem approvalToSimple_additive (split : Bool) (p₁ p₂ : AProfile) (h : ApprovalOK split (p₁ ++ p₂)) :
+    ∃ d d₁ d₂, approvalToSimple split (p₁ ++ p₂) = .ok d ∧ approvalToSimple split p₁ = .ok d₁ ∧
+      approvalToSimple split p₂ = .ok d₂ ∧ ∀ k, toFun d k = toFun d₁ k + toFun d₂ k := by
+  have h1 : ApprovalOK split p₁ := fun hs bw hbw => h hs bw (List.mem_append_left _ hbw)
+  have h2 : ApprovalOK split p₂ := fun hs bw hbw => h hs bw (List.mem_append_right _ hbw)
+  obtain ⟨d, hd, _, hs⟩ := approvalToSimple_sum split _ h
+  obtain ⟨d₁, hd₁, _, hs₁⟩ := approvalToSimple_sum split _ h1
+  obtain ⟨d₂, hd₂, _, hs₂⟩ := approvalToSimple_sum split _ h2
+  exact ⟨d, d₁, d₂, hd, hd₁, hd₂, fun k => by rw [hs, hs₁, hs₂, wsum_append]⟩
+
+theorem approvalToSimple_additive_merged (split : Bool) (p₁ p₂ : AProfile) (h : ApprovalOK split (p₁ ++ p₂)) :
+    ∃ d d₁ d₂, approvalToSimple split (mergeDict (p₁ ++ p₂)) = .ok d ∧ approvalToSimple split p₁ = .ok d₁ ∧
+      approvalToSimple split p₂ = .ok d₂ ∧ ∀ k, toFun d k = toFun d₁ k + toFun d₂ k := by
+  have hm : ApprovalOK split (mergeDict (p₁ ++ p₂)) := by
+    intro hs bw hbw
+    have : bw.1 ∈ dkeys (p₁ ++ p₂) := (mem_dkeys_mergeDict _ _).1 (List.mem_map.2 ⟨bw, hbw, rfl⟩)
+    obtain ⟨bw', hbw', he⟩ := List.mem_map.1 this
+    rw [← he]; exact h hs bw' hbw'
+  obtain ⟨d, d₁, d₂, _, hd₁, hd₂, _⟩ := approvalToSimple_additive split p₁ p₂ h
+  obtain ⟨dm, hdm, _, hsm⟩ := approvalToSimple_sum split _ hm
+  obtain ⟨_, hd₁', _, hs₁⟩ := approvalToSimple_sum split p₁ (fun hs bw hbw => h hs bw (List.mem_append_left _ hbw))
+  obtain ⟨_, hd₂', _, hs₂⟩ := approvalToSimple_sum split p₂ (fun hs bw hbw => h hs bw (List.mem_append_right _ hbw))
+  rw [hd₁] at hd₁'; rw [hd₂] at hd₂'
+  cases hd₁'; cases hd₂'
+  exact ⟨dm, d₁, d₂, hdm, hd₁, hd₂, fun k => by rw [hsm, hs₁, hs₂, wsum_mergeDict, wsum_append]⟩
+
+/-- the image of a canonical (duplicate-free) approval ballot: 1 (or 1/|b|) for each approved candidate,
+    nothing for the others -/
+theorem approvalImage_nodup (split : Bool) {b : Approval} (hb : b.Nodup) (c : Cand) :
+    approvalImage split b c = if c ∈ b then (if split then 1 / (b.length : Rat) else 1) else 0 := by
+  unfold approvalImage
+  rw [cnt_of_nodup hb]
+  cases split <;> by_cases hc : c ∈ b <;> simp [hc]
+
+/-- weight conservation: unsplit, each ballot contributes its weight once per approved candidate;
+    split, exactly its weight -/
+theorem approvalToSimple_weight_conserved (split : Bool) (p : AProfile) (h : ApprovalOK split p) :
+    ∃ d, approvalToSimple split p = .ok d ∧
+      total d = wsum p (fun b => if split then 1 else (b.length : Rat)) := by
+  refine ⟨_, approvalToSimple_eq_ok split p h, ?_⟩
+  have : ∀ (q : AProfile) (acc : Dict Cand), (split = true → ∀ bw ∈ q, bw.1 ≠ []) →
+      total (q.foldl (approvalStep split) acc) = total acc + wsum q (fun b => if split then 1 else (b.length : Rat)) := by
+    intro q
+    induction q with
+    | nil => intro acc _; simp
+    | cons bw t ih =>
+      intro acc hq
+      rw [List.foldl_cons, ih _ (fun hs bw' hbw' => hq hs bw' (by simp [hbw'])),
+        total_approvalStep split acc bw (fun hs => hq hs bw (by simp)), wsum_cons]
+      ring
+  rw [this p [] h]; simp [total]
 
 end VL.C13
